@@ -141,6 +141,8 @@ def rename_cols(sc, rng):
     if not present:
         return sc
     mp = {c: rng.choice(RENAMES[c]) for c in present if rng.random() < 0.6}
+    if "v" in present and "w" in present and rng.random() < 0.2:
+        mp.update(v="Aa", w="BB")      # names whose call texts sum(Aa) / sum(BB) collide under a multiply-by-31 string hash
     if not mp:
         return sc
     sc = copy.deepcopy(sc)
